@@ -224,7 +224,13 @@ func (fr *frame) visitInstr(instr ssa.Instruction) continuation {
 		return kJump
 	case *ssa.Defer:
 		fn, args := fr.prepareCall(&instr.Call)
-		fr.defers = &deferred{fn: fn, args: args, instr: instr, tail: fr.defers}
+		defers := &fr.defers
+		if instr.DeferStack != nil {
+			if into, ok := fr.get(instr.DeferStack).(**deferred); ok && into != nil {
+				defers = into
+			}
+		}
+		*defers = &deferred{fn: fn, args: args, instr: instr, tail: *defers}
 	case *ssa.Go:
 		fn, args := fr.prepareCall(&instr.Call)
 		w.spawn(fr, instr.Pos(), fn, args)
